@@ -17,7 +17,8 @@ LEVEL = 'fault_enumeration'
 RULE = ('Consistent envelope skeletons (1..3 interchanges x 0..3 groups x 0..4 sets x 0..8 body segments, HL trees, CLM/LX '
         'runs) with 0..3 injected message faults from a 25-kind catalogue (control number changed/duplicated/blank/'
         'non-numeric, count off/non-numeric/empty/missing, header or trailer dropped/duplicated/swapped, orphan trailer, '
-        'truncation, HL01 gap/repeat, HL02 closed/later/non-numeric, LX gap, body segment dropped/duplicated/emptied), read through '
+        'truncation, HL01 gap/repeat, HL02 closed/later/non-numeric, LX gap, body segment dropped/duplicated/emptied, claim header '
+        'dropped, counts that only a lenient parser reads as numbers: +1, 1_2), read through '
         'the chunking seam. quick/thorough also enumerate every single fault kind at every applicable position of a base '
         'skeleton. distinct_nontrivial = distinct (sorted fault-kind multiset, nesting class, sorted expected error '
         'multiset) keys.')
